@@ -214,6 +214,8 @@ def run(prop, tier, vseed):
         for a, f, c in pool.imap_unordered(work, fam, chunksize=4):
             nev += a
             failures.extend(f)
+            if len(failures) > 20000:
+                failures = report.compact(failures)
             classes |= c
     cov = {
         "states": len(fam),
